@@ -9,6 +9,7 @@ import (
 	"os"
 	"sort"
 	"strconv"
+	"strings"
 	"time"
 )
 
@@ -43,6 +44,7 @@ func main() {
 		seed := fs.Uint64("seed", 1, "seed")
 		tier := fs.String("tier", "quick", "quick|thorough")
 		out := fs.String("out", "", "output directory")
+		corpus := fs.String("corpus", "", "file of op lines that failed in the past (under seeded changes): run first")
 		fs.Parse(os.Args[2:])
 		def, ok := streams[*stream]
 		if !ok || *out == "" {
@@ -72,6 +74,24 @@ func main() {
 				}
 			}
 		}()
+		// the corpus first: operations on which some earlier (seeded or real) defect showed
+		if *corpus != "" {
+			if data, err := os.ReadFile(*corpus); err == nil {
+				n := 0
+				for _, line := range strings.Split(string(data), "\n") {
+					line = strings.TrimSpace(line)
+					if line == "" || strings.HasPrefix(line, "#") || !corpusOp(*stream, line) {
+						continue
+					}
+					replayOp = line
+					def.fn(c)
+					n++
+				}
+				replayOp = ""
+				c.Note("corpus: %d operations that exposed earlier defects were run first", n)
+				c.CountN("corpus-ops", n)
+			}
+		}
 		def.fn(c)
 		c.Close()
 		fmt.Printf("stream=%s ops=%d nontrivial=%d oracle_failures=%d\n", *stream, c.n, c.nontriv, len(c.fails))
@@ -100,6 +120,23 @@ func main() {
 	default:
 		usage()
 	}
+}
+
+// corpusOp: only ops the stream can replay on their own go into a corpus run.
+var replayable = map[string][]string{
+	"proto": {"serve ", "cdec "}, "req": {"hreq "}, "seg": {"env."}, "cut": {"env."}, "limit": {"env."}, "roundtrip": {"env."},
+	"cancel": {"cflow ", "cwatch ", "cwrite "}, "timeout": {"gtmo.", "ctmo.serve "}, "life": {"rseq ", "sseq "},
+	"codec": {"code.", "pct.", "b64.", "http."}, "disp": {"disp ", "path ", "cpath "}, "neg": {"neg ", "cmin "},
+	"icpt": {"icpt "}, "panic": {"recover "},
+}
+
+func corpusOp(stream, line string) bool {
+	for _, p := range replayable[stream] {
+		if strings.HasPrefix(line, p) {
+			return true
+		}
+	}
+	return false
 }
 
 // replayOp, when non-empty, makes a stream run exactly this op instead of generating.
